@@ -330,6 +330,12 @@ class NodeSuite(Suite):
         pstate = {j: 'OFF' for j in range(1, 7)}     # what each peer would publish as its own FSM state
         busy_p = rng.choice([0.0, 0.0, 0.2, 0.5])
         evs = []
+        # late joiner mode: the peers already form a working cluster with an established Master among them
+        established = min(peers) if rng.random() < 0.3 else 0
+        if established:
+            st0 = rng.choice(['OPERATION', 'CONCILIATION', 'DISTRIBUTION', 'OPERATION'])
+            for j in peers:
+                pstate[j] = st0
 
         def ist(j):
             return ctx.instances[ident(j)].state.name
@@ -344,12 +350,22 @@ class NodeSuite(Suite):
                     if rng.random() < 0.85 else s
                 view.append((k, ISTATES[INAMES.index(s)]))
             m = idx(sm.master_identifier)
-            if not m and rng.random() < 0.7:
+            if established and established in alive and rng.random() < 0.9:
+                m = established
+                view = [(k, 'IRUNNING' if (k in alive or k == 1) and s in ('IRUNNING', 'ISTOPPED') and
+                         (k == 1 or k in peers) and (k != 1 or s == 'IRUNNING') else s) for k, s in view]
+            elif not m and rng.random() < 0.7:
                 running = [k for k, s in view if s == 'IRUNNING']
                 core = [k for k in cfg['core_ids'] if k in running]
                 m = min(core or running or [0])
             local = sm.state.name
-            if j == m:
+            if established and m == established:
+                # the working cluster goes on: its Master wanders between OPERATION and CONCILIATION
+                if j == m and rng.random() < 0.3:
+                    pstate[j] = rng.choice(['OPERATION', 'CONCILIATION'])
+                elif j != m:
+                    pstate[j] = pstate[m]
+            elif j == m:
                 nxt = {'OFF': 'SYNCHRONIZATION', 'SYNCHRONIZATION': 'ELECTION', 'ELECTION': 'DISTRIBUTION',
                        'DISTRIBUTION': 'OPERATION', 'OPERATION': rng.choice(['OPERATION', 'OPERATION', 'CONCILIATION']),
                        'CONCILIATION': 'OPERATION'}
